@@ -167,40 +167,34 @@ def check_call_protocol(ctx, lib):
     b = ip.b
     arm = ip.arms["Function"]
     o = ip.o
-    pushes = [(x, t) for x, t in arm.calls if t["callee"].endswith("Vec::<T, A>::push")]
+    from ..collected import ELEM, describe_vector
     gf = [(x, t) for x, t in arm.calls if t["callee"] == "runtime::Runtime::get_function"]
     ev = [(x, t) for x, t in arm.calls if t["callee"] == "functions::Function::evaluate"]
-    nexts = [(x, t) for x, t in arm.calls if t["callee"] == "std::iter::Iterator::next"]
-    ok = len(pushes) == 1 and len(gf) == 1 and len(ev) == 1 and len(nexts) == 1 and len(arm.recursive) == 1
-    ctx.check(ok, rule, "shape", f"one argument loop (one evaluation, one push), one lookup, one invocation (pushes {len(pushes)}, lookups {len(gf)}, invocations {len(ev)}, evaluations {len(arm.recursive)})", b.span)
+    ok = len(gf) == 1 and len(ev) == 1 and len(arm.recursive) == 1
+    ctx.check(ok, rule, "shape", f"one evaluation site for the arguments, one lookup, one invocation (lookups {len(gf)}, invocations {len(ev)}, evaluation sites {len(arm.recursive)})", b.span)
     if not ok:
         return
-    px, pt = pushes[0]
-    vec = o.of_operand(pt["args"][0])
-    val = o.of_operand(pt["args"][1])
-    each = all(t[0] == "call" and t[1] == INTERP and set(t[2][0]) == {DATA} and
-               set(t[2][1]) == {("elem", ("field", NODE, "Function.args"))} for t in val) and bool(val)
-    it = o.of_operand(nexts[0][1]["args"][0])
-    order = all(i == ("iter", ("field", NODE, "Function.args")) for i in it) and bool(it)
-    fresh = all(t[0] == "call" and t[1] == "std::vec::Vec::<T>::new" for t in vec) and bool(vec)
-    ctx.check(each and order and fresh, rule, "arguments", "each argument expression is evaluated once against the current node, in source order, into a fresh vector", pt["span"]["s"])
-    # unconditional push
-    cont = None
-    for x, t in arm.calls:
-        if t["callee"] == "std::ops::Try::branch" and o.of_operand(t["args"][0]) == val:
-            ve = ip.br.variant_edges(t["t"])
-            if ve and "Continue" in ve["edges"]:
-                cont = ve["edges"]["Continue"]
-    uncond = cont is not None and nexts[0][0] not in reach_avoiding(b, cont, avoid_blocks=[px])
-    ctx.check(uncond, rule, "every-argument-kept", "every evaluated argument is pushed (no filtering)", pt["span"]["s"])
-    # lookup happens after all arguments were evaluated: the lookup is not inside the loop and is dominated by the loop's exit
-    from ..analysis import cfg_cycles
-    loop = set()
-    for c in cfg_cycles(b):
-        if nexts[0][0] in c:
-            loop = set(c)
+    # the argument vector handed to evaluate: every element of node.args, in order, evaluated against the current node —
+    # built by a loop with push or by an iterator chain (collected.describe_vector)
+    ex, et = ev[0]
+    vec = o.of_operand(et["args"][1])
+    d = describe_vector(lib, b, o, vec)
+    each = order = keeps = False
+    if d is not None and len(d) == 1:
+        bd = d[0]
+        order = bd.source == {("field", NODE, "Function.args")}
+        keeps = bd.every_item
+        each = bool(bd.value) and all(t[0] == "call" and t[1] == INTERP and set(t[2][0]) == {DATA} and set(t[2][1]) == {ELEM} and set(t[2][2]) == {CTX} for t in bd.value)
+    ctx.check(each and order, rule, "arguments", "each argument expression is evaluated once against the current node, in source order, into a fresh vector"
+              + ("" if d else f" — construction not recognised ({fmt_terms(vec)[:100]})"), et["span"]["s"])
+    ctx.check(keeps, rule, "every-argument-kept", "every evaluated argument is kept (no filtering)", et["span"]["s"])
+    # lookup happens after all arguments were evaluated: no evaluation site can follow the lookup
     gx, gt = gf[0]
-    ok = gx not in loop and b.dominates(nexts[0][0], gx)
+    rec_blocks = {x for x, _, _, _ in arm.recursive}
+    later = reach_avoiding(b, gx)
+    from ..analysis import cfg_cycles
+    same_cycle = any(gx in c and (rec_blocks & set(c)) for c in cfg_cycles(b))
+    ok = not (rec_blocks & (later - {gx})) and not same_cycle and all(x != gx for x in rec_blocks)
     ctx.check(ok, rule, "lookup-after-arguments", "the function is looked up only after all arguments have been evaluated", gt["span"]["s"])
     ex, et = ev[0]
     a = [o.of_operand(x) for x in et["args"]]
